@@ -197,23 +197,28 @@ func runC12(c *Ctx, r *Report, tier string) {
 	won := c.fname(wo)
 	// the value written is phi{raw | Quote(raw)}; the raw edge requires ¬forceQuote ∧ (type != String ∨ isPrint)
 	nRaw := 0
+	seenAt := map[ssa.Instruction]bool{}
 	for _, b := range c.blocks(wo) {
 		for _, in := range b.Instrs {
-			p, ok := in.(*ssa.Phi)
-			if !ok || c.term(p) != "phi{P4 | call:strconv.Quote(P4)}" {
+			v, ok := in.(ssa.Value)
+			if !ok {
 				continue
 			}
-			for i, e := range p.Edges {
-				if c.term(e) != "P4" {
+			_, isPhi := in.(*ssa.Phi)
+			_, isCall := in.(*ssa.Call)
+			if !(isPhi || isCall) || in.Parent() != wo || (c.term(v) != "phi{P4 | call:strconv.Quote(P4)}" && c.term(v) != "phi{call:strconv.Quote(P4) | P4}") {
+				continue
+			}
+			// (a phi in writeOption itself, or the result of a new helper that returns the value raw or quoted)
+			for _, o := range c.originsOf(v, in) {
+				if o.Term != "P4" || seenAt[o.At] {
 					continue
 				}
+				seenAt[o.At] = true
 				nRaw++
-				pred := p.Block().Preds[i]
-				last := pred.Instrs[len(pred.Instrs)-1]
-				o := Origin{Val: e, At: last, Pred: pred, Succ: p.Block()}
 				reach1 := !c.reqAt(wo, o, litIs("P6", false))
 				reach2 := !c.reqAt(wo, o, anyLit(litIs("eq(24, P2)", false), litIs("call:isPrint(P4)", true)))
-				r.Check(!reach1 && !reach2, "QUOTE", won, "raw output only when not forced and (not a string or printable)", c.ipos(last), "REQ(¬forceQuote) ∧ REQ(kind ≠ String ∨ isPrint(value))", fmt.Sprintf("¬forceQuote necessary=%v (≠String ∨ isPrint) necessary=%v", !reach1, !reach2))
+				r.Check(!reach1 && !reach2, "QUOTE", won, "raw output only when not forced and (not a string or printable)", c.ipos(o.At), "REQ(¬forceQuote) ∧ REQ(kind ≠ String ∨ isPrint(value))", fmt.Sprintf("¬forceQuote necessary=%v (¬String ∨ printable) necessary=%v", !reach1, !reach2))
 			}
 		}
 	}
